@@ -289,6 +289,8 @@ class BitStringPayloadDecoder(AbstractSimplePayloadDecoder):
 
 class OctetStringPayloadDecoder(AbstractSimplePayloadDecoder):
     protoComponent = univ.OctetString('')
+    # fragments of a constructed (character) string are octet strings
+    fragmentComponent = univ.OctetString('')
     supportConstructedForm = True
 
     def valueDecoder(self, substrate, asn1Spec,
@@ -327,7 +329,7 @@ class OctetStringPayloadDecoder(AbstractSimplePayloadDecoder):
         # head = popSubstream(substrate, length)
         while substrate.tell() - original_position < length:
             for component in decodeFun(
-                    substrate, self.protoComponent, substrateFun=substrateFun,
+                    substrate, self.fragmentComponent, substrateFun=substrateFun,
                     **options):
                 if isinstance(component, SubstrateUnderrunError):
                     yield component
@@ -356,7 +358,7 @@ class OctetStringPayloadDecoder(AbstractSimplePayloadDecoder):
         while True:  # loop over fragments
 
             for component in decodeFun(
-                    substrate, self.protoComponent, substrateFun=substrateFun,
+                    substrate, self.fragmentComponent, substrateFun=substrateFun,
                     allowEoo=True, **options):
 
                 if isinstance(component, SubstrateUnderrunError):
